@@ -164,6 +164,33 @@ def relations(rng, tier, rpt):
                 bad.append({"property": "C05", "entry_point": "FromExtendedKey/ToExtended", "request_lines": [],
                             "relation": "parse then re-serialise is not the identity on the implementation",
                             "input": s, "impl_output": s2, "model_output": s, "no_failing_input": False})
+    # several live objects that share key material but differ in metadata (depth, index, fingerprint, chain code): each serialises ITS
+    # fields, in whatever order they are asked (layout reference: Base58Check of version || depth || fp || index || cc || key)
+    from bip_utils import Bip32KeyData, Bip32Depth, Bip32KeyIndex, Bip32ChainCode, Bip32FingerPrint
+    for i in range(6 if tier == "quick" else 120):
+        c = ("secp256k1", "nist256p1")[i % 2]
+        pv, sv = kvs[i % len(kvs)]
+        kv = Bip32KeyNetVersions(pv, sv)
+        kb = rng.randrange(1, ORDER[c]).to_bytes(32, "big")
+        pubb = CLS[c].FromPrivateKey(kb).PublicKey().RawCompressed().ToBytes()
+        metas = [(0, 0, bytes(4), bytes(32)), (1, 5, bytes(4), bytes(range(32))), (3, 2**31 + 1, b"\x01\x02\x03\x04", b"\x11" * 32), (255, 2**32 - 1, b"\xff" * 4, bytes(31) + b"\x01")]
+        objs = []
+        for d, ix, fp, cc in metas:
+            kd = Bip32KeyData(Bip32Depth(d), Bip32KeyIndex(ix), Bip32ChainCode(cc), Bip32FingerPrint(fp))
+            objs.append((CLS[c].FromPublicKey(pubb, kd, kv), CLS[c].FromPrivateKey(kb, kd, kv), d, ix, fp, cc))
+        order = list(range(len(objs)))
+        rng.shuffle(order)
+        for j in order + order[::-1]:
+            po, so, d, ix, fp, cc = objs[j]
+            n += 1
+            want_pub, want_prv = ser(pv, d, fp, ix, cc, pubb), ser(sv, d, fp, ix, cc, b"\x00" + kb)
+            got = (po.PublicKey().ToExtended(), so.PublicKey().ToExtended(), so.PrivateKey().ToExtended())
+            if got != (want_pub, want_pub, want_prv):
+                bad.append({"property": "C05", "entry_point": "PublicKey().ToExtended() / PrivateKey().ToExtended()", "request_lines": [],
+                            "relation": "an object's extended key is not the serialisation of ITS OWN metadata when other objects with the same key material are alive",
+                            "input": "%s key=%s depth=%d index=%d fp=%s" % (c, kb.hex(), d, ix, fp.hex()), "impl_output": str(got), "model_output": str((want_pub, want_pub, want_prv)),
+                            "no_failing_input": False})
+                break
     # SLIP-32 form: layout against the standard (depth || path || chain code || key in Bech32 under xprv/xpub), parse, re-serialise;
     # keys with leading zero bytes and long paths included
     from bip_utils import Slip32PrivateKeySerializer, Slip32PublicKeySerializer, Slip32KeyDeserializer, Secp256k1PrivateKey, Ed25519PrivateKey, Bip32Path
@@ -177,17 +204,17 @@ def relations(rng, tier, rpt):
         path = Bip32Path(elems, True)
         cc = bytes(rng.randrange(256) for _ in range(32)) if i % 7 else bytes(2) + bytes(rng.randrange(256) for _ in range(30))
         head = bytes([len(elems)]) + b"".join(e.to_bytes(4, "big") for e in elems) + cc
-        for is_pub, ser, key_field in ((False, Slip32PrivateKeySerializer.Serialize(priv, path, cc), b"\x00" + kb),
+        for is_pub, ser_s, key_field in ((False, Slip32PrivateKeySerializer.Serialize(priv, path, cc), b"\x00" + kb),
                                       (True, Slip32PublicKeySerializer.Serialize(priv.PublicKey(), path, cc), priv.PublicKey().RawCompressed().ToBytes())):
             ns += 1
             want = _bech32_ref("xpub" if is_pub else "xprv", head + key_field)
-            if ser != want:
+            if ser_s != want:
                 rep_s = {"property": "C05", "entry_point": "Slip32 serializer", "request_lines": [], "relation": "SLIP-32 string differs from the standard layout",
-                         "input": "%s path=%s" % (kb.hex(), elems), "impl_output": ser, "model_output": want, "no_failing_input": False}
+                         "input": "%s path=%s" % (kb.hex(), elems), "impl_output": ser_s, "model_output": want, "no_failing_input": False}
                 bad.append(rep_s)
                 continue
             try:
-                d = Slip32KeyDeserializer.DeserializeKey(ser)
+                d = Slip32KeyDeserializer.DeserializeKey(ser_s)
                 got = (d.KeyBytes(), d.Path().ToList(), d.ChainCode().ToBytes(), d.IsPublic())
             except Exception as ex:  # noqa
                 got = type(ex).__name__
@@ -195,7 +222,7 @@ def relations(rng, tier, rpt):
             if got != exp:
                 bad.append({"property": "C05", "entry_point": "Slip32KeyDeserializer.DeserializeKey", "request_lines": [],
                             "relation": "parsing a SLIP-32 string does not reconstruct the key material and metadata it was built from",
-                            "input": ser, "impl_output": str(got if isinstance(got, str) else (got[0].hex(), got[1], got[2].hex(), got[3])),
+                            "input": ser_s, "impl_output": str(got if isinstance(got, str) else (got[0].hex(), got[1], got[2].hex(), got[3])),
                             "model_output": str((exp[0].hex(), exp[1], exp[2].hex(), exp[3])), "no_failing_input": False})
     rpt.extra["slip32_checks"] = ns
     rpt.extra["impl_roundtrips"] = n
